@@ -13,6 +13,15 @@ C12Clauses(c) ==
      {<<"signature_shape", Len(c.sig) = (mx - 1) * (mx - 1)>>,
       <<"signature_cells", Len(c.sig) = (mx - 1) * (mx - 1) =>
            \A a, b \in 1..(mx - 1) : c.sig[SigIndex(mx, a, b)] = SigCell(S, mx, a, b)>>} ELSE {})
+  \* large bounds: only the non-zero cells are logged ([index, value] pairs) with the vector length
+  \cup (IF Has(c, "sigsparse") THEN
+     {<<"signature_shape", c.siglen = (mx - 1) * (mx - 1)>>,
+      <<"signature_cells",
+          /\ \A p \in Rng(c.sigsparse) :
+                LET a == ((p[1] - 1) \div (mx - 1)) + 1   b == ((p[1] - 1) % (mx - 1)) + 1
+                IN p[1] >= 1 /\ p[1] <= (mx - 1) * (mx - 1) /\ p[2] = SigCell(S, mx, a, b)
+          /\ Len(c.sigsparse) = Cardinality({<<Cardinality(k.s), Cardinality(k.t)>> : k \in {k \in Keys(S) : KSize(k) <= mx}})
+          /\ Len(c.sigsparse) = Cardinality({p[1] : p \in Rng(c.sigsparse)})>>} ELSE {})
   \cup (IF Has(c, "exact") THEN LET F(z) == ExactRec(S, mx, z) IN RecClause("exact_reciprocity", S, mx, c.exact, F) ELSE {})
   \cup (IF Has(c, "strong") THEN LET F(z) == StrongRec(S, mx, z) IN RecClause("strong_reciprocity", S, mx, c.strong, F) ELSE {})
   \cup (IF Has(c, "weak") THEN LET F(z) == WeakRec(S, mx, z) IN RecClause("weak_reciprocity", S, mx, c.weak, F) ELSE {})
